@@ -352,6 +352,8 @@ void explore20(Options const& o, std::vector<Shim*> const& shims, std::vector<Sh
   C20 c(rec);
   std::vector<u64> v64[2] = { int_type_values(T_I64, th ? 8 : 6, 4, th ? 4096 : 512), int_type_values(T_U64, th ? 8 : 6, 4, th ? 4096 : 512) };
   for( int k = 0; k < 2; ++k ) for( i64 d = -1024; d <= 1024; ++d ) v64[k].push_back(static_cast<u64>(d));
+  // 64-bit words whose two 32-bit halves are each an angle of the function's own domain (a quotient or remainder narrowed to 32 bits)
+  for( int k = 0; k < 2; ++k ) for( u64 hi : { 1ull, 2ull, 3ull, 4ull, 89ull, 90ull, 91ull, 180ull, 270ull, 360ull, 361ull, 450ull, 630ull, 720ull, 0xffffffffull, 0x80000000ull } ) for( u64 lo = 0; lo <= 460; ++lo ) v64[k].push_back((hi << 32) | lo);
   const int XT[12] = { T_I8, T_I16, T_I32, T_I64, T_U8, T_U16, T_U32, T_U64, T_LL, T_ULL, T_F32, T_FIXED };
   rec.note("alphabet", "angle_to_radians: EVERY value of the 8- and 16-bit types; every value of int32/uint32 on " + std::string(th ? "every configuration" : "two configurations and windows elsewhere") + "; " + std::to_string(v64[0].size())
            + " S-shaped/boundary values of the 64-bit types; sin/cos/tan_angle: every integer d in [-360, 360] carried by each of 12 argument types (where representable), compared with the bound and with the int32_t result");
